@@ -38,6 +38,18 @@ def markOp (N : Nat) (irr : List Bool) (act : Nat → Option Nat) : List Bool :=
 def findIrreducible (N : Nat) (ops : List (Nat → Option Nat)) : List Bool :=
   ops.foldl (markOp N) (List.replicate N true)
 
+/-- the action the loop applies for ONE ordered pair of blocks (block1, block2): the point `x = (a·np2 + b)·nR + iR`
+    with `a` a site of block1 and `b` a site of block2 goes to `(map1 a, map2 b, iR1)`, where `map1` is the atom map of
+    BLOCK1 (`symmetrizer_left.atommap_list[block1][:, isym]`), `map2` the atom map of BLOCK2
+    (`symmetrizer_right.atommap_list[block2][:, isym]`) — each block uses its own map — and
+    `iR1 = index_R(R·rotᵀ + T1[a] − T2[b])` (`rimg iR a b`, `none` when that vector is not stored). -/
+def pairAct (np2 nR : Nat) (map1 map2 : Nat → Nat) (rimg : Nat → Nat → Nat → Option Nat) : Nat → Option Nat :=
+  fun x =>
+    let a := x / (np2 * nR)
+    let b := (x / nR) % np2
+    let iR := x % nR
+    (rimg iR a b).map (fun iR1 => (map1 a * np2 + map2 b) * nR + iR1)
+
 /-! ### the block formula of `average_XX_block` (mode "sum") with `_rotate_XX_L_backwards`
 
   Executable over any scalar type (`conj` = complex conjugation, the identity over `Rat`).  One operation contributes to
